@@ -128,6 +128,7 @@ package linter
 //@   assigns c.ctx.warnings
 //@   trusted_frame the file walker is an arbitrary checker; that it writes only checker-owned state is property C05
 //@   call FileWalker.WalkFile requires @buffer-emptied-before-walk len(c.ctx.warnings) == 0
+//@   emits checked(f)
 
 //@ func (*Context).SetPackageInfo
 //@   prop C03
@@ -145,6 +146,7 @@ package linter
 //@   requires c != nil && f != nil
 //@   assigns c.Filename, c.PkgObjects, c.PkgRenames
 //@   ensures @name-set c.Filename == name
+//@   emits fileinfo(f)
 
 //@ func resolvePkgObjects
 //@   prop C03
